@@ -377,7 +377,7 @@ def impl(case):
         for row, H in zip(vo, hs):
             row.append(bool(sg0 == SynGraph(H, c)))
             row.append(bool(cg0 == CanonicalGraph(H, c)))
-    return [[[[out, pat], vo], _rule_vo(case)]] + _graph_sig_obs(case)
+    return [[[[[out, pat], vo], _rule_vo(case)]] + _graph_sig_obs(case), _order_only_perms(case)]
 
 
 def _graph_sig_obs(case):
@@ -392,6 +392,13 @@ def _graph_sig_obs(case):
     for h in case.get("others", []):
         sigs.append(c.nauty.graph_signature(_nx(h)))
     return [labels, _pattern(sigs)]
+
+
+def _order_only_perms(case):
+    """Canonical permutation of NautyCanonicalizer with edge_attrs=["order"] (standard_order not selected), per presentation."""
+    from synkit.Graph.Canon.nauty import NautyCanonicalizer
+    nc = NautyCanonicalizer(node_attrs=["element", "aromatic", "charge", "hcount"], edge_attrs=["order"])
+    return [list(nc.canonical_form(_nx(p), return_perm=True)[1]) for p in _present(case)]
 
 
 RULE_VO_MAX_NODES = 6
@@ -472,7 +479,7 @@ def coq_case(case):
     for p in ps:
         G = _nx(p)
         items.append("(%s, %s, %s)" % (_cgraph(p), _cranks(_wl_ranks(G), p), _cranks(_morgan_ranks(G), p)))
-    return "run_case4 %s %s %s" % (clist(items), clist([_cgraph(h) for h in case.get("others", [])]),
+    return "run_case5 %s %s %s" % (clist(items), clist([_cgraph(h) for h in case.get("others", [])]),
                                    clist([_cgraph(h) for h in _rule_hs(case)]))
 
 
@@ -998,7 +1005,7 @@ def distribution(cases, obss):
         if _n_aut_gt1_or_tied(c["g"]):
             tied += 1
         try:
-            for row in o[0][0][0][0]:
+            for row in o[0][0][0][0][0]:
                 refines += len(row[3][2])
                 leaves += len(row[3][3])
                 if len(row[3][3]) > 1:
